@@ -76,4 +76,14 @@ CHECKS.update({
         note="libm functions are parameters (oracle: bit-equality with the storage type's function of the stored value)",
         technique="Lean 4 proof (kernel-evaluated constants and identity units + forwarding) + correspondence check"),
 })
+CHECKS.update({
+    'C01': dict(
+        text="Lean 4 theorems for any number of base quantities and any integer exponents: *, /, recip, powi, mul_add give exactly sum, difference, negation, product (default kind); sqrt/cbrt are defined iff every exponent is divisible and then give the exact quotient; scalar-on-the-left forms keep the kind; additive/scaling/rounding/sign forms return the left operand's type; a result is the named default-kind quantity of its dimension (interchangeable); 40 textbook identities kernel-decided on the table regenerated from src/si. Correspondence: the real result types read back at run time (to_i32 of each exponent, type_name of the kind) for 600 (thorough: 13 225) pairs × {*, /, mul_add}, every unary/preserving form on all 115 quantities, synthetic vectors with distinct exponents and special kinds; every admissible `let _: C = a*b` binding is type-checked by rustc",
+        note="the type-level templates are hand-transcribed (typenum modelled by Int); rustc's trait solver and typenum are the implementation under test",
+        technique="Lean 4 proof (integer exponent algebra + kernel-decided identities) + run-time read-back of real result types"),
+    'C02': dict(
+        text="Lean 4 theorems about the acceptance relation transcribed from the impl headers, marker bounds, explicit temperature impls and the regenerated impl_from!/kind tables: additive forms iff same type with the marker or the TT±TI / TI+TT impls; comparison/ordering/binding/hypot/atan2 iff identical types; foreign units rejected; roots iff divisible; conversions iff reflexive or an impl_from! instance; kernel-decided on the SI: TT+TT, TT−TT, −TT, TI−TT rejected, only the temperature kind lacks Add, all 115×115 quantity pairs of different class rejected for every symmetric form. Correspondence: rustc's verdict on ~9 400 generated probe functions (16 forms × class pairs, positive controls, same-type-other-module pairs) compared with the relation; 9 mixed-base programs under autoconvert on/off",
+        note="rustc is the implementation under test; each negative probe sits next to positive controls generated from the same template",
+        technique="Lean 4 proof (decision logic stated outright, kernel-decided on generated tables) + rustc probe correspondence"),
+})
 NOT_APPLICABLE = {}
